@@ -1,6 +1,7 @@
 """C11 — partial and complete parsers agree: sibling agreement (DESIGN §4)."""
 from rules import sib as S
 from rules.core import guarded
+from rules import extra as X
 
 INFO = {
     "explanation": "parse_complete/parse_partial and fast_path_complete/fast_path_partial are shown to have equal normalised instruction multisets under the declared substitution (complete callees -> partial callees; the partial variant additionally pairs each result with a count); parse_complete_number and parse_special are the partial result plus a `count == length` test; IS_PARTIAL only selects between two errors; the two integer algorithms expand the same algorithm! macro and differ only inside the handler macros.",
@@ -14,3 +15,4 @@ def run(col, configs, tier):
         col.set_config(name)
         guarded(col, S.rule_float_siblings, facts)
         guarded(col, S.rule_integer_siblings, facts)
+        guarded(col, X.rule_complete_special_returns, facts)
